@@ -276,6 +276,13 @@ RETCODE adfRemoveEntry ( struct AdfVolume * const vol,
         (*adfEnv.wFct)(buf);
         return RC_ERROR;
     }
+    /* only files and directories can be removed: say so before anything is modified */
+    if ( entry.secType != ST_FILE && entry.secType != ST_DIR ) {
+      sprintf(buf, "adfRemoveEntry : secType %d not supported", entry.secType);
+        (*adfEnv.wFct)(buf);
+        return RC_ERROR;
+    }
+
 /*    printf("name=%s  nSect2=%ld\n",name, nSect2);*/
 
     /* in parent hashTable */
